@@ -510,3 +510,78 @@ LEVEL_NOTE = ("NOT proved, validated by execution only: that the Newton loop con
               "classic only.")
 TECHNIQUE = "Coq proof (real analysis with Coquelicot: monotonicity, is_derive, bounds, loop invariants) + extracted-model correspondence + residual/monotone/finite-difference oracles"
 DESIGN_REF = "DESIGN.md section 5 C07"
+
+
+def replay(ctx, obj):
+    """re-run one recorded input on the implementation under test and on the model"""
+    inp = obj.get("input") or {}
+    op = inp.get("op")
+    if op in ("inverse_intrinsic_dispersion_relation", "monotone-scan"):
+        ws = inp["w"]; ds = inp["d"]
+        mode = inp.get("mode", "aa")
+        g = inp.get("grav", G0); tol = inp.get("tolerance", TOL0); fuel = inp.get("maximum_number_of_iterations", 10)
+        c = {"op": "kinv", "mode": mode if mode in ("ss", "as", "aa", "22", "alias") else "aa",
+             "w": [C.fx(v) for v in ws], "d": [C.fx(v) for v in ds]}
+        if inp.get("shape"):
+            c["shape"] = inp["shape"]
+        if "grav" in inp and (g != G0 or tol != TOL0 or fuel != 10):
+            c.update({"grav": C.fx(g), "maxit": fuel, "tol": C.fx(tol)})
+        im = ctx.impl("C07.py", {"cases": [c]})["results"][0]
+        if mode == "ss":
+            mk = [C.unfx(r[2]) for r in ctx.model([kinv_line(g, tol, fuel, [w], [d]) for w, d in zip(ws, ds)])]
+        else:
+            mk = [C.unfx(v) for v in ctx.model([kinv_line(g, tol, fuel, ws, ds)])[0][2:]]
+        print("implementation:", im if "error" in im else [C.unfx(v) for v in im["k"]])
+        print("model         :", mk)
+        if "error" in im:
+            ctx.oracle_fail("raised %s" % im, inp); return
+        ik = [C.unfx(v) for v in im["k"]]
+        for j, (w, d, k) in enumerate(zip(ws, ds, ik)):
+            ctx.count(["replay", w, d])
+            if not (k > 0 and math.isfinite(k)):
+                ctx.oracle_fail("wavenumber %r for w=%r d=%r is not positive and finite" % (k, w, d), inp)
+            elif fuel >= 10 and abs(omega_py(g, k, d) - w) > tol * w * (1 + 1e-9):
+                ctx.oracle_fail("|omega(k)-w| = %.3e w exceeds %.1e (w=%r d=%r k=%r)" % (abs(omega_py(g, k, d) - w) / w, tol, w, d, k), inp)
+            elif not C.close(k, mk[j], 1e-9):
+                ctx.disagree("element %d: implementation %r, modelled solver %r" % (j, k, mk[j]), inp)
+        if op == "monotone-scan" or len(ws) == 2:
+            for j in range(len(ik) - 1):
+                if ds[j] == ds[j + 1] and ws[j + 1] > ws[j] and not ik[j + 1] > ik[j]:
+                    ctx.oracle_fail("k not increasing in w: k(%r)=%r, k(%r)=%r" % (ws[j], ik[j], ws[j + 1], ik[j + 1]), inp,
+                                    key=FINDING_KEY if (abs(ik[j + 1] / ik[j] - 1) < 2.1e-3 and mode == "ss") else None)
+    elif op == "kinematics":
+        ks = inp["k"]; ds = inp["d"]; g = inp.get("grav", G0)
+        c = {"op": "kin", "mode": "aa", "k": [C.fx(v) for v in ks], "d": [C.fx(v) for v in ds], "grav": C.fx(g)}
+        im = ctx.impl("C07.py", {"cases": [c]})["results"][0]
+        r = ctx.model(["kin %s %d %s" % (C.fx(g), len(ks), " ".join("%s %s" % (C.fx(k), dtok(d)) for k, d in zip(ks, ds)))])[0]
+        vals = [C.unfx(v) for v in r[1:]]
+        print("implementation:", im if "error" in im else {k_: [C.unfx(v) for v in im[k_]] for k_ in ("omega", "n", "cg")})
+        print("model (omega, n, cg, n_exact per point):", vals)
+        if "error" in im:
+            ctx.oracle_fail("raised %s" % im, inp); return
+        for j in range(len(ks)):
+            ctx.count(["replay", ks[j], ds[j]])
+            for nm, a, b in (("omega", C.unfx(im["omega"][j]), vals[4 * j]), ("n", C.unfx(im["n"][j]), vals[4 * j + 1]),
+                             ("cg", C.unfx(im["cg"][j]), vals[4 * j + 2])):
+                if not C.close(a, b, 1e-9):
+                    ctx.disagree("%s(k=%r,d=%r) = %r, defining formula %r" % (nm, ks[j], ds[j], a, b), inp, is_property_failure=True)
+    elif op == "spectrum-members":
+        fs = inp["frequency"]; depths = inp["depth"]
+        c = {"op": "spec", "kind": inp["kind"], "f": [C.fx(v) for v in fs], "lead_shape": inp["lead_shape"],
+             "lead_dims": inp["lead_dims"], "depth": [C.fx(v) for v in depths], "seed": 0, "ndir": 8}
+        im = ctx.impl("C07.py", {"cases": [c]})["results"][0]
+        print("implementation:", im if "error" in im else {k_: [C.unfx(v) for v in im[k_]][:12] for k_ in ("depth", "wavenumber", "wavelength", "wave_speed", "group_velocity")})
+        if "error" in im:
+            ctx.oracle_fail("raised %s" % im, inp); return
+        ik = [C.unfx(v) for v in im["wavenumber"]]
+        nf = len(fs)
+        for j, k in enumerate(ik):
+            d = depths[j // nf]; d = float("inf") if math.isnan(d) else d
+            w = fs[j % nf] * 2 * math.pi
+            ctx.count(["replay", j])
+            if not (k > 0 and math.isfinite(k)) or abs(omega_py(G0, k, d) - w) > TOL0 * w * (1 + 1e-9):
+                ctx.oracle_fail("spectrum.wavenumber %r at f=%r depth=%r violates the dispersion relation" % (k, fs[j % nf], depths[j // nf]), inp)
+            elif not C.close(C.unfx(im["wavelength"][j]) * k, 2 * math.pi, 1e-12) or not C.close(C.unfx(im["wave_speed"][j]) * k, w, 1e-12):
+                ctx.oracle_fail("spectrum wavelength / wave_speed inconsistent with wavenumber at element %d" % j, inp)
+    else:
+        print("replay: unknown op %r - run ./check C07 with the recorded seed %r instead" % (op, obj.get("seed")))
